@@ -179,8 +179,11 @@ impl FunctionExpression for FlattenFn {
 
         if td.is_array() {
             TypeDef::array(Collection::any())
-        } else {
+        } else if td.is_object() {
             TypeDef::object(Collection::any())
+        } else {
+            // the argument may be either: so may the result
+            TypeDef::array(Collection::any()).or_object(Collection::any())
         }
     }
 }
